@@ -67,20 +67,20 @@ theorem continuity_self (x : List Rat) (p q : Rat) (hx : x.Pairwise (· < ·)) (
     larger window makes the code's slice start negative and wrap around — see the example below).
     `win`, `N` are the values the code computes (`pScoreParts`). -/
 theorem p_score_self (r r' : Rat) (rs : List Rat) (thr : Rat) (win : Int) (N cnt : Nat)
-    (h : pScoreParts r (r' :: rs) r (r' :: rs) thr = .ok (win, N, cnt)) (hw : 0 ≤ win) (hwN : win < (N : Int))
+    (h : pScoreParts r (r' :: rs) r (r' :: rs) thr = some (win, N, cnt)) (hw : 0 ≤ win) (hwN : win < (N : Int))
     (hlen : (trainSupport (r :: r' :: rs) (minList r (r' :: rs))).length = rs.length + 2)
     (hsep : (diffs (trainSupport (r :: r' :: rs) (minList r (r' :: rs)))).all (fun d => decide (win < d)) = true) :
-    cnt = rs.length + 2 ∧ pScoreCore (r :: r' :: rs) (r :: r' :: rs) thr = .ok 1 := by
+    cnt = rs.length + 2 ∧ pScoreCore (r :: r' :: rs) (r :: r' :: rs) thr = 1 := by
   have hcnt : cnt = rs.length + 2 := by
     unfold pScoreParts at h
     simp only [min_self] at h
     split at h
     · simp at h
-    · simp only [Except.ok.injEq, Prod.mk.injEq] at h
+    · simp only [Option.some.injEq, Prod.mk.injEq] at h
       obtain ⟨rfl, rfl, rfl⟩ := h
       rw [pairCount_self _ _ _ hw hwN hsep, hlen]
   refine ⟨hcnt, ?_⟩
-  simp only [pScoreCore, h, bind, Except.bind, pure, Except.pure, Except.ok.injEq, hcnt, max_self]
+  simp only [pScoreCore, h, hcnt, max_self]
   have : ((rs.length + 2 : Nat) : Rat) ≠ 0 := by positivity
   exact div_self this
 
@@ -95,13 +95,13 @@ example : ([5, 6, 7, 8, 9] : List Rat).Pairwise (· < ·) ∧ 5 ≤ ([5, 6, 7, 8
 example : Beat.goto [5, 6, 7, 8, 9] [5, 6, 7, 8, 9] = .ok 1 := by decide +kernel
 example : Beat.goto [5, 6, 7, 8] [5, 6, 7, 8] = .ok 0 := by decide +kernel
 example : continuityCore [5, 6, 7] [5, 6, 7] (7 / 40) (7 / 40) = .ok (1, 1, 1, 1) := by decide +kernel
-example : pScoreCore [5, 6, 7] [5, 6, 7] (1 / 5) = .ok 1 := by decide +kernel
-example : pScoreParts 5 [6, 7] 5 [6, 7] (1 / 5) = .ok (20, 201, 3) := by decide +kernel
+example : pScoreCore [5, 6, 7] [5, 6, 7] (1 / 5) = 1 := by decide +kernel
+example : pScoreParts 5 [6, 7] 5 [6, 7] (1 / 5) = some (20, 201, 3) := by decide +kernel
 example : (trainSupport [5, 6, 7] (minList 5 [6, 7])).length = 3 ∧
     (diffs (trainSupport [5, 6, 7] (minList 5 [6, 7]))).all (fun d => decide ((20 : Int) < d)) = true := by
   decide +kernel
 /-- a window larger than the train (threshold 3): the slice wraps around and the perfect estimate scores 1/3 -/
-example : pScoreCore [5, 6, 7] [5, 6, 7] 3 = .ok (1 / 3) := by decide +kernel
+example : pScoreCore [5, 6, 7] [5, 6, 7] 3 = 1 / 3 := by decide +kernel
 example : validate [5, 6, 7] [5, 6, 7] = .ok () := by decide +kernel
 example : ([5, 6, 7] : List Rat) ≠ [] := by simp
 
